@@ -329,7 +329,7 @@ func (x *Exec) safe(st *State, kind string, goal *T, pos token.Pos, what string)
 	}
 	st.oblige("safe", kind, goal, pos, what, x.safetyProps())
 	// after the check, continue under the assumption that it held (the failing case is reported once)
-	st.Assume(goal)
+	st.assumeAfter("safe", kind, goal)
 }
 
 func (x *Exec) safetyProps() []string {
